@@ -1,7 +1,9 @@
 import Tickit.Proof.WinInput
 import Tickit.Proof.WinInputSafe
 import Tickit.Proof.WinInputDeliver
+import Tickit.Proof.WinInputBind
 import Tickit.Gen.WinInputCfg
+import Tickit.Gen.InputXlate
 /-
   C14 — Input reaches the front-most eligible window first, in its own coordinates.
 
@@ -38,6 +40,17 @@ import Tickit.Gen.WinInputCfg
          outside `A` are offered the event in the reference order of the tree as it was when the dispatch began
          ........................................................... `delivery_unaffected_key`, `delivery_unaffected_mouse`,
                                                                      `delivery_unaffected_persists` (whole events, histories)
+    the window's own handlers, when earlier ones are one-shot or unbind themselves and mutate the tree / hand the focus
+         over from inside the walk (FOCUS events are then emitted on the list being walked): every handler still
+         bound is invoked, in binding order, up to the first claim ... `own_handlers_under_mutation`,
+                                                                     `own_handlers_all_when_declined`,
+                                                                     `gone_handler_never_invoked`, `oneshot_at_most_once`
+    mouse input that arrives as X10 bytes (libtermkey's decoding modelled: `x10Key`; `got_key` = the C20 model): the
+         events of a report, the held-button record, the button of a button-less release, and with it DRAG_DROP /
+         DRAG_STOP consistent with the press that began the drag .... `x10_report_events`, `x10_wheel_keeps_held`,
+                                                                     `x10_gesture_holds_pressed_button`,
+                                                                     `x10_release_names_held_button`,
+                                                                     `x10_drag_release_consistent`
 -/
 namespace Tickit.Props.C14
 open Tickit Tickit.WinTree Tickit.WinInput
@@ -286,42 +299,9 @@ theorem drag_outside_iff (cfg : Cfg) (fuel : Nat) (st : St) (ev : Ev) (handled :
 theorem hidden_never (cfg : Cfg) (hc : cfg.shown = true) (fuel : Nat) (st st' : St) (ev : Ev) (r : Bool)
     (h : onTermKey cfg fuel st ev = Out.ok (st', r) ∨ onTermMouse cfg fuel st ev = Out.ok (st', r)) :
     ∃ new, st'.log = new ++ st.log ∧ ∀ k w e b, LogItem.offer k w e b ∈ new → b = true := by
-  have key : Ext ShownOffer st st' := by
-    rcases h with h | h
-    · exact handleKey_ext (shownOffer_routed cfg hc .key ev) fuel st 0 st' r h
-    · obtain ⟨st0, st1, st2, handled, st3, st4, h0, h1, h2, h3, h4, h5, _⟩ := onTermMouse_ok h
-      have hq : Quiet ShownOffer := (shownOffer_routed cfg hc .mouse ev).toQuiet
-      have hr : ∀ e, Routed cfg .mouse e ShownOffer := shownOffer_routed cfg hc .mouse
-      have e1 : Ext ShownOffer st0 st1 := by
-        unfold dragPrelude at h1
-        by_cases c1 : ev.type = evPress
-        · simp only [c1, if_true, out_pure, Out.ok.injEq] at h1; subst h1; exact Ext.of_log rfl
-        · simp only [c1, if_false] at h1
-          by_cases c2 : (ev.type = evDrag && !st0.tree.root.mouseDragging) = true
-          · rw [if_pos c2] at h1
-            obtain ⟨⟨sa, src⟩, ha, h1⟩ := out_bind_eq_ok.1 h1
-            obtain ⟨sb, hb, h1⟩ := lift_bind_eq_ok.1 h1
-            simp only [out_pure, Out.ok.injEq] at h1; subst h1
-            exact ((handleMouse_ext (hr _) fuel _ _ _ _ _ (sameKind.rfl' _) ha).trans (dragSourceSet_ext hq hb)).trans
-              (Ext.of_log rfl)
-          · rw [if_neg c2] at h1
-            by_cases c3 : (ev.type = evRelease && st0.tree.root.mouseDragging) = true
-            · rw [if_pos c3] at h1
-              obtain ⟨⟨sa, dropped⟩, ha, h1⟩ := out_bind_eq_ok.1 h1
-              obtain ⟨sb, hb, h1⟩ := lift_bind_eq_ok.1 h1
-              obtain ⟨sc, hcc, h1⟩ := out_bind_eq_ok.1 h1
-              simp only [out_pure, Out.ok.injEq] at h1; subst h1
-              have e3 : Ext ShownOffer sb sc := by
-                unfold dragStop at hcc
-                cases hsrc : sb.tree.root.dragSource with
-                | none => simp only [hsrc, out_pure, Out.ok.injEq] at hcc; subst hcc; exact Ext.refl _ _
-                | some src => simp only [hsrc] at hcc; exact toDragSource_ext (fun _ _ => hr _) hcc
-              exact (((handleMouse_ext (hr _) fuel _ _ _ _ _ (sameKind.rfl' _) ha).trans (dropResult_ext hq hb)).trans e3).trans
-                (Ext.of_log rfl)
-            · rw [if_neg c3] at h1; simp only [out_pure, Out.ok.injEq] at h1; subst h1; exact Ext.refl _ _
-      exact ((((refWin_ext h0).trans e1).trans (handleMouse_ext (hr ev) fuel _ _ _ _ _ (sameKind.rfl' _) h2)).trans
-        (dragOutside_ext (fun _ _ => hr _) h3)).trans ((dropResult_ext hq h4).trans (unrefLogged_ext hq h5))
-  obtain ⟨new, hl, hp⟩ := key
+  have key : Ext ShownOffer st st' :=
+    onTerm_ext (shownOffer_routed cfg hc .key ev) (shownOffer_routed cfg hc .mouse) h
+  obtain ⟨⟨new, hl, hp⟩, _⟩ := key
   exact ⟨new, hl, fun k w e b hm => hp _ hm⟩
 
 /-- **drag_consistent (order and content of the first DRAG).**  Whatever the handlers do: in the log of a DRAG event
@@ -357,8 +337,8 @@ theorem drag_start_first (cfg : Cfg) (fuel : Nat) (st st' : St) (ev : Ev) (r : B
   have eD : Ext (Carries QD) st1 st' :=
     ((handleMouse_ext rD fuel _ _ _ _ _ (sameKind.rfl' _) h2).trans (dragOutside_ext rO h3)).trans
       ((dropResult_ext rD.toQuiet h4).trans (unrefLogged_ext rD.toQuiet h5))
-  obtain ⟨newS, hS, pS⟩ := eS
-  obtain ⟨newD, hD, pD⟩ := eD
+  obtain ⟨⟨newS, hS, pS⟩, _⟩ := eS
+  obtain ⟨⟨newD, hD, pD⟩, _⟩ := eD
   exact ⟨newS, newD, by rw [hD, hS, hlog0, List.append_assoc], pS, pD⟩
 
 /-- **drag_consistent (the release).**  Whatever the handlers do: in the log of a RELEASE received while a drag is in
@@ -404,9 +384,9 @@ theorem drag_drop_stop_order (cfg : Cfg) (fuel : Nat) (st st' : St) (ev : Ev) (r
   have eRel : Ext (Carries fun e => e.type = evRelease ∧ e.button = ev.button ∧ e.mod = ev.mod) st1 st' :=
     ((handleMouse_ext rRel fuel _ _ _ _ _ (sameKind.rfl' _) h2).trans eOut).trans
       ((dropResult_ext rRel.toQuiet h4).trans (unrefLogged_ext rRel.toQuiet h5))
-  obtain ⟨n1, l1, p1⟩ := eDrop
-  obtain ⟨n2, l2, p2⟩ := eStop
-  obtain ⟨n3, l3, p3⟩ := eRel
+  obtain ⟨⟨n1, l1, p1⟩, _⟩ := eDrop
+  obtain ⟨⟨n2, l2, p2⟩, _⟩ := eStop
+  obtain ⟨⟨n3, l3, p3⟩, _⟩ := eRel
   exact ⟨n1, n2, n3, by rw [l3, l2, l1, hlog0]; simp only [List.append_assoc], p1, p2, p3⟩
 
 /-! ### mutations from inside handlers
@@ -424,7 +404,8 @@ def opWin (p : WinTree.Id) (r : Rect) (flags : Nat := 0) : St → Option St := f
   | .ok (s', _) => some s'
   | .ub _ => none
 
-def opBind (w : WinTree.Id) (k : Kind) (es : List Entry) : St → Option St := fun s => some (addBinding s w k es).1
+def opBind (w : WinTree.Id) (k : Kind) (es : List Entry) (oneshot : Bool := false) : St → Option St :=
+  fun s => some (addBinding s w k es oneshot).1
 
 def opAct (a : Act) (w : WinTree.Id) : St → Option St := fun s =>
   match doAction s ⟨a, w⟩ with
@@ -555,7 +536,8 @@ inductive Reachable : St → Prop where
   | fresh (lines cols : Int) : Reachable (newSt lines cols)
   | win {st st' : St} {id : WinTree.Id} (p : WinTree.Id) (r : Rect) (a b c d : Bool) :
       Reachable st → newWin st p r a b c d = Res.ok (st', id) → Reachable st'
-  | bind {st : St} (w : WinTree.Id) (k : Kind) (es : List Entry) : Reachable st → Reachable (addBinding st w k es).1
+  | bind {st : St} (w : WinTree.Id) (k : Kind) (es : List Entry) (oneshot : Bool) :
+      Reachable st → Reachable (addBinding st w k es oneshot).1
   | act {st st' : St} (a : Action) : Reachable st → doAction st a = Res.ok st' → Reachable st'
   | flush {st st' : St} : Reachable st → flushSt st = Res.ok st' → Reachable st'
   | key {st st' : St} (ev : Ev) : Reachable st → emitKey Cfg.repaired st ev = Out.ok st' → Reachable st'
@@ -652,7 +634,7 @@ theorem reachable_good {st : St} (h : Reachable st) : AInv st [] := by
       have := newWin_good ih (newWin_alive hn) r a b c d
       rw [hn] at this
       exact this
-    | bind w k es _ ih => exact addBinding_good ih w k es (fun _ _ a _ => actOK_all a)
+    | bind w k es os _ ih => exact addBinding_good ih w k es (fun _ _ a _ => actOK_all a) os
     | act a _ hd ih =>
       have := doAction_safe ih.1 (actOK_all a)
       rw [hd] at this
@@ -932,9 +914,9 @@ theorem stepR_win (p : WinTree.Id) (r : Rect) (flags : Nat) : StepR (opWin p r f
   · next s1 id hn => cases h; exact Reachable.win p r _ _ _ _ hs hn
   · cases h
 
-theorem stepR_bind (w : WinTree.Id) (k : Kind) (es : List Entry) : StepR (opBind w k es) := by
+theorem stepR_bind (w : WinTree.Id) (k : Kind) (es : List Entry) (os : Bool := false) : StepR (opBind w k es os) := by
   intro s s' hs h
-  cases h; exact Reachable.bind w k es hs
+  cases h; exact Reachable.bind w k es os hs
 
 theorem stepR_act (a : Act) (w : WinTree.Id) : StepR (opAct a w) := by
   intro s s' hs h
@@ -1088,5 +1070,299 @@ example : ∃ st, focusInsideA = some st ∧ Unaffected (fun x => x == 2 || x ==
     rw [hb] at h
     simp only [Option.map_some, Option.some.injEq] at h
     exact ⟨st, rfl, unaffectedCheck_sound h⟩
+
+/-! ### handlers that leave the list they are run from: one-shot and self-unbinding handlers
+
+  A binding made with `TICKIT_BIND_ONESHOT`, or a handler that unbinds its own binding while it runs, turns into a
+  tombstone of the list that `run_events_whilefalse` is walking.  What the handler does besides — close, hide, restack,
+  hand the focus over, which makes the window emit FOCUS events from inside the walk, on the same list — must not
+  derail the rest of the walk. -/
+
+/-- **own handlers under mutation** (the clause "then to the window's own handlers … stopping at the first handler
+    that claims it", for every tree mutation performed from inside handlers).  Whatever the handlers of a window do
+    (`runHandlers` returned at all), the calls made by one offer are exactly: every handler that is still bound, in
+    binding order, up to and including the first whose table says "claim" (`untilClaim (liveOf …)`) — handlers that
+    are gone (fired one-shot, unbound themselves) are passed over, nobody is skipped because an earlier handler
+    mutated the tree or left the list; and the bindings afterwards and the claim are those of the pure reference
+    `offerOne` (the one `key_order` / `mouse_target` are stated with). -/
+theorem own_handlers_under_mutation (st st' : St) (kind : Kind) (win : WinTree.Id) (ev : Ev) (c : Bool)
+    (h : runHandlers st kind win ev = Res.ok (st', c)) :
+    callsOf st'.log = callsOf st.log ++ untilClaim kind win ev (liveOf st.binds (bindingsOf st.binds kind win)) ∧
+    (st'.binds, c) = offerOne st.binds kind win := by
+  unfold runHandlers at h
+  obtain ⟨h1, h2⟩ := runBindings_calls kind win ev _ _ _ _ h
+  rw [callsOf_say_offer] at h1
+  refine ⟨?_, h2⟩
+  rw [h1]
+  exact congrArg _ (walkCalls_eq kind win ev _ _ (bindingsOf_nodup _ _ _))
+
+/-- …in particular, when no bound handler claims, every one of them is called, in order. -/
+theorem own_handlers_all_when_declined (kind : Kind) (win : WinTree.Id) (ev : Ev) :
+    ∀ (l : List Binding), (∀ b ∈ l, b.entry.ret = false) →
+      untilClaim kind win ev l = l.map fun b => LogItem.call kind win b.idx (entryIndex b) false ev := by
+  intro l
+  induction l with
+  | nil => intro _; rfl
+  | cons b rest ih =>
+    intro hd
+    have hb := hd b (List.mem_cons_self ..)
+    simp only [untilClaim, List.map_cons, hb, Bool.false_eq_true, if_false]
+    rw [ih (fun x hx => hd x (List.mem_cons_of_mem _ hx))]
+
+/-- A binding that is gone is never invoked again: a whole key or mouse event leaves it exactly as it was. -/
+theorem gone_handler_never_invoked (cfg : Cfg) (st st' : St) (ev : Ev)
+    (h : emitKey cfg st ev = Out.ok st' ∨ emitMouse cfg st ev = Out.ok st')
+    (i : Nat) (x : Binding) (hx : st.binds[i]? = some x) (hg : x.gone = true) : st'.binds[i]? = some x := by
+  obtain ⟨x', hx', s⟩ := (emit_bmono h).2 i x hx
+  rw [hx', s.gone hg]
+
+/-- **A one-shot handler runs at most once**, in every history: in every state the engine can reach, a one-shot
+    binding has either never been invoked and is bound, or has been invoked exactly once and is gone. -/
+theorem oneshot_at_most_once {st : St} (h : Reachable st) : OneShotInv st.binds := by
+  induction h with
+  | fresh l c => intro i x hx; simp [newSt] at hx
+  | @win st st' id p r a b c d _ hn ih =>
+    unfold newWin at hn
+    obtain ⟨⟨t, id'⟩, _, hn⟩ := res_bind_eq_ok.1 hn
+    simp only [res_pure, Res.ok.injEq, Prod.mk.injEq] at hn
+    obtain ⟨rfl, _⟩ := hn
+    exact ih
+  | bind w k es os _ ih => exact ih.push _ rfl rfl
+  | act a _ ha ih => rw [doAction_binds ha]; exact ih
+  | flush _ hf ih =>
+    unfold flushSt at hf
+    obtain ⟨t, _, hf⟩ := res_bind_eq_ok.1 hf
+    simp only [res_pure, Res.ok.injEq] at hf
+    subst hf; exact ih
+  | key ev _ hk ih => exact ih.mono (emit_bmono (Or.inl hk))
+  | mouse ev _ hm ih => exact ih.mono (emit_bmono (Or.inr hm))
+
+namespace Scenario
+
+/-- The dialog of the reviewers' demonstration: window 1 is unrelated, 2 is a dialog that holds the focus, 3 its entry
+    field.  The dialog's first key handler is a one-shot hook that hands the focus to the entry field (the dialog is
+    told it lost the focus while its key handlers are being walked) and declines; its second handler claims. -/
+def dialog : Option St :=
+  build [opWin 0 ⟨0, 0, 2, 8⟩, opWin 0 ⟨2, 1, 3, 6⟩, opWin 2 ⟨1, 1, 1, 4⟩,
+         opBind 1 .key [claim],
+         opBind 2 .key [doing false .focus 3] true, opBind 2 .key [claim],
+         opBind 3 .key [decl],
+         opAct .focus 2] (newSt 6 8)
+
+/-- The handler calls (window, handler index, claimed) of an event, oldest first. -/
+def called (o : Option (Out St)) : Option (List (WinTree.Id × Nat × Bool)) :=
+  o.bind fun r => match r with
+    | .ok s => some ((callsOf s.log).filterMap fun i => match i with | .call _ w i _ r _ => some (w, i, r) | _ => none)
+    | _ => none
+
+end Scenario
+
+open Scenario in
+/-- Non-vacuity: first key — the hook fires (and moves the focus), then the dialog's second handler claims; second key —
+    the hook is gone: the entry field (innermost on the focus chain) declines, the dialog's remaining handler claims. -/
+example :
+    called (dialog.map fun s => emitKey Cfg.repaired s key) = some [(2, 0, false), (2, 1, true)] ∧
+    called (dialog.bind fun s => match emitKey Cfg.repaired s key with
+      | .ok s1 => some (emitKey Cfg.repaired { s1 with log := [] } key) | _ => none) = some [(3, 0, false), (2, 1, true)] := by
+  refine ⟨by decide +kernel, by decide +kernel⟩
+
+open Scenario in
+/-- …and the state after the first key is reachable, with the hook invoked once and gone. -/
+example : ∃ st, Reachable st ∧ ∃ x, st.binds[1]? = some x ∧ x.oneshot = true ∧ x.count = 1 ∧ x.gone = true := by
+  have hd : ∃ s, dialog = some s := by
+    cases h : dialog with
+    | none => exact absurd h (by decide +kernel)
+    | some s => exact ⟨s, rfl⟩
+  obtain ⟨s, hs⟩ := hd
+  have hr : Reachable s := by
+    apply build_reachable _ _ _ _ (Reachable.fresh 6 8) hs
+    intro f hf
+    simp only [List.mem_cons, List.not_mem_nil, or_false] at hf
+    rcases hf with rfl | rfl | rfl | rfl | rfl | rfl | rfl | rfl
+    · exact stepR_win _ _ _
+    · exact stepR_win _ _ _
+    · exact stepR_win _ _ _
+    · exact stepR_bind _ _ _
+    · exact stepR_bind _ _ _ true
+    · exact stepR_bind _ _ _
+    · exact stepR_bind _ _ _
+    · exact stepR_act _ _
+  have hk : (dialog.map fun s => match emitKey Cfg.repaired s key with
+      | .ok s1 => (s1.binds[1]?.map fun x => (x.oneshot, x.count, x.gone)) == some (true, 1, true)
+      | _ => false) = some true := by decide +kernel
+  rw [hs] at hk
+  simp only [Option.map_some, Option.some.injEq] at hk
+  cases he : emitKey Cfg.repaired s key with
+  | ok s1 =>
+    rw [he] at hk
+    dsimp only at hk
+    refine ⟨s1, Reachable.key key hr he, ?_⟩
+    cases hx : s1.binds[1]? with
+    | none => rw [hx] at hk; simp at hk
+    | some x =>
+      rw [hx] at hk
+      simp only [Option.map_some, beq_iff_eq, Option.some.injEq, Prod.mk.injEq] at hk
+      exact ⟨x, rfl, hk.1, hk.2.1, hk.2.2⟩
+  | ub w => rw [he] at hk; simp at hk
+  | fuel => rw [he] at hk; simp at hk
+
+/-! ### mouse input that arrives as X10 bytes: the button of a button-less release
+
+  `ESC [ M …` reports go through libtermkey (modelled: `x10Key`), `got_key` of src/term.c (`InputXlate.gotKey`, the
+  C20 model) and `on_term_mouse`.  An X10 release does not say which button was released: the terminal names the
+  buttons it recorded as held.  For the drag clause that record has to be right: exactly the buttons pressed or
+  dragged and not released since — a wheel report (a libtermkey "press" of button 4 / 5) is not one of them. -/
+
+open InputXlate in
+/-- Every X10 report, in every state of the held record that satisfies the mask invariant (`MaskInv`, kept by every
+    report): `got_key` returns (no undefined shift, the release loop terminates), keeps the invariant, its record
+    holds exactly the specification's set of held buttons, and — with the `default:` arm repaired, or for a report of
+    a known kind — it emits exactly the specification's events. -/
+theorem x10_report_events (xcfg : InputXlate.Cfg) (hcb : xcfg.onModereport = true ∧ xcfg.onDecrqss = true)
+    (held : Nat) (hinv : MaskInv held) (code line col : Nat) :
+    ∃ held' evs, gotKey xcfg x10Fuel held (x10Key code line col) = .ok (held', evs) ∧ MaskInv held' ∧
+      heldButtons held' = (Spec.keyEvents (heldButtons held) (x10Key code line col)).1 ∧
+      ((xcfg.dropUnknownMouse = true ∨ (x10Key code line col).KnownKind) →
+        evs = (Spec.keyEvents (heldButtons held) (x10Key code line col)).2) :=
+  gotKey_refines xcfg x10Fuel (by decide) held hinv _ (x10Key_wf code line col) hcb
+
+open InputXlate in
+/-- **A wheel report does not mark a button as held**: the record is unchanged, and exactly one WHEEL event (up = 1,
+    down = 2) is emitted, at the reported cell. -/
+theorem x10_wheel_keeps_held (xcfg : InputXlate.Cfg) (held code line col : Nat)
+    (hw : code &&& 0xc3 = 64 ∨ code &&& 0xc3 = 65) (hm : code &&& 0x20 = 0) :
+    gotKey xcfg x10Fuel held (x10Key code line col) =
+      .ok (held, [Event.mouse MOUSEEV_WHEEL (x10Button code - 3) line col (x10Mods code)]) := by
+  have he : x10Event code = TERMKEY_MOUSE_PRESS := by
+    unfold x10Event
+    rcases hw with hw | hw <;> simp [hw, hm]
+  have hb : WHEEL_FIRST_BUTTON ≤ x10Button code := by
+    unfold x10Button WHEEL_FIRST_BUTTON
+    rcases hw with hw | hw <;> simp [hw]
+  unfold x10Key
+  rw [he, gotKey_mouse_wheel xcfg x10Fuel held _ _ _ _ hb]
+  simp
+
+open InputXlate in
+/-- **The button-less release is given the button that is held**: with exactly button `b` held, an X10 release is
+    reported as one RELEASE of button `b` at the reported cell, and nothing is held afterwards. -/
+theorem x10_release_names_held_button (xcfg : InputXlate.Cfg) (hcb : xcfg.onModereport = true ∧ xcfg.onDecrqss = true)
+    (held : Nat) (hinv : MaskInv held) (b : Nat) (hb : heldButtons held = [b]) (code line col : Nat)
+    (hr : code &&& 0xc3 = 3) :
+    ∃ held', gotKey xcfg x10Fuel held (x10Key code line col) =
+      .ok (held', [Event.mouse MOUSEEV_RELEASE b line col (x10Mods code)]) ∧ heldButtons held' = [] := by
+  obtain ⟨held', evs, hg, _, hh, he⟩ := x10_report_events xcfg hcb held hinv code line col
+  have hev : x10Event code = TERMKEY_MOUSE_RELEASE := by unfold x10Event; simp [hr]
+  have hbt : x10Button code = 0 := by unfold x10Button; simp [hr]
+  have hk : x10Key code line col = .mouse TERMKEY_MOUSE_RELEASE 0 ((line : Int) + 1) ((col : Int) + 1) (x10Mods code) := by
+    unfold x10Key; rw [hev, hbt]
+  rw [hk] at hh he hg
+  have hspec : Spec.keyEvents [b] (.mouse TERMKEY_MOUSE_RELEASE 0 ((line : Int) + 1) ((col : Int) + 1) (x10Mods code)) =
+      ([], [Event.mouse MOUSEEV_RELEASE b line col (x10Mods code)]) := by
+    simp [Spec.keyEvents, TERMKEY_MOUSE_RELEASE, TERMKEY_MOUSE_PRESS, TERMKEY_MOUSE_DRAG]
+  rw [hb, hspec] at hh he
+  refine ⟨held', ?_, hh⟩
+  rw [hk, hg, he (Or.inr (by simp [Key.KnownKind, TERMKEY_MOUSE_RELEASE, TERMKEY_MOUSE_PRESS, TERMKEY_MOUSE_DRAG]))]
+
+open InputXlate in
+/-- **drag drop / stop consistent with the press, for a release that cannot name its button.**  With exactly button
+    `b` held (the button of the press that began the drag: `x10_gesture_holds_pressed_button`) and a drag in progress,
+    an X10 release — whatever the handlers do — logs DRAG_DROP first, then DRAG_STOP, then the RELEASE itself, all
+    carrying button `b`, then at most the note that no window claimed the release; and nothing is held afterwards. -/
+theorem x10_drag_release_consistent (cfg : WinInput.Cfg) (xcfg : InputXlate.Cfg)
+    (hcb : xcfg.onModereport = true ∧ xcfg.onDecrqss = true) (ts ts' : TSt) (hinv : MaskInv ts.held) (b : Nat)
+    (hb : heldButtons ts.held = [b]) (hdr : ts.st.tree.root.mouseDragging = true) (code line col : Nat)
+    (hr : code &&& 0xc3 = 3) (h : pushX10 cfg xcfg ts code line col = Out.ok ts') :
+    heldButtons ts'.held = [] ∧
+    ∃ newDrop newStop newRel tail, ts'.st.log = tail ++ newRel ++ newStop ++ newDrop ++ ts.st.log ∧
+      (∀ i ∈ newDrop, Carries (fun e => e.type = evDragDrop ∧ e.button = b) i) ∧
+      (∀ i ∈ newStop, Carries (fun e => e.type = evDragStop ∧ e.button = b) i) ∧
+      (∀ i ∈ newRel, Carries (fun e => e.type = evRelease ∧ e.button = b ∧ e.mod = x10Mods code) i) ∧
+      (∀ i ∈ tail, i = LogItem.unhandled) := by
+  obtain ⟨held', hg, hh⟩ := x10_release_names_held_button xcfg hcb ts.held hinv b hb code line col hr
+  unfold pushX10 at h
+  rw [hg] at h
+  simp only [deliver] at h
+  obtain ⟨s1, hA, h⟩ := out_bind_eq_ok.1 h
+  obtain ⟨s0, hB, hC⟩ := out_bind_eq_ok.1 hA
+  simp only [out_pure, Out.ok.injEq] at h hC
+  subst hC; subst h
+  refine ⟨hh, ?_⟩
+  unfold emitMouse at hB
+  obtain ⟨⟨s2, handled⟩, h2, h3⟩ := out_bind_eq_ok.1 hB
+  simp only [out_pure, Out.ok.injEq] at h3
+  obtain ⟨n1, n2, n3, hl, p1, p2, p3⟩ := drag_drop_stop_order cfg _ ts.st s2 _ handled h2 (by rfl) hdr
+  cases handled with
+  | true =>
+    simp only [if_true] at h3; subst h3
+    exact ⟨n1, n2, n3, [], by simpa using hl, p1, p2, p3, by simp⟩
+  | false =>
+    simp only [Bool.false_eq_true, if_false] at h3; subst h3
+    exact ⟨n1, n2, n3, [LogItem.unhandled], by simp [St.say, hl], p1, p2, p3, by simp⟩
+
+open InputXlate in
+/-- **What is held during a drag is the button of the press that began it**: from a fresh terminal, after the press of
+    button `p + 1` (X10 code `p`, any modifiers) followed by any number of drags of that button and turns of the wheel,
+    `got_key` has returned every time and its record holds exactly that button. -/
+theorem x10_gesture_holds_pressed_button (xcfg : InputXlate.Cfg) (hcb : xcfg.onModereport = true ∧ xcfg.onDecrqss = true)
+    (p : Nat) (hp : p < 3) (c0 l0 k0 : Nat) (hc0 : c0 &&& 0xc3 = p ∧ c0 &&& 0x20 = 0)
+    (more : List (Nat × Nat × Nat)) (hm : ∀ r ∈ more, KeepsHeld p r.1) :
+    ∃ held evs, runKeys xcfg x10Fuel 0 (x10Key c0 l0 k0 :: more.map fun r => x10Key r.1 r.2.1 r.2.2) = .ok (held, evs) ∧
+      MaskInv held ∧ heldButtons held = [p + 1] := by
+  obtain ⟨held, evs, hrun, hinv, hh, _⟩ := runKeys_refines xcfg x10Fuel (by decide) hcb
+    (x10Key c0 l0 k0 :: more.map fun r => x10Key r.1 r.2.1 r.2.2) 0 maskInv_zero (by
+      intro k hk
+      rcases List.mem_cons.1 hk with rfl | hk
+      · exact x10Key_wf _ _ _
+      · obtain ⟨r, _, rfl⟩ := List.mem_map.1 hk; exact x10Key_wf _ _ _)
+  refine ⟨held, evs, hrun, hinv, ?_⟩
+  rw [hh, heldButtons_zero]
+  have hpress : (Spec.keyEvents [] (x10Key c0 l0 k0)).1 = [p + 1] := by
+    have he : x10Event c0 = TERMKEY_MOUSE_PRESS := by unfold x10Event; simp [hc0.1, hp, hc0.2]
+    have hbt : x10Button c0 = (p : Int) + 1 := by unfold x10Button; simp [hc0.1, hp]
+    unfold x10Key
+    rw [he, hbt]
+    have h4 : ¬ ((p : Int) + 1 ≥ 4) := by omega
+    have : ((p : Int) + 1).toNat = p + 1 := by omega
+    simp [Spec.keyEvents, h4, this, Spec.insert]
+  have hrest : ∀ (l : List (Nat × Nat × Nat)), (∀ r ∈ l, KeepsHeld p r.1) →
+      (Spec.run [p + 1] (l.map fun r => x10Key r.1 r.2.1 r.2.2)).1 = [p + 1] := by
+    intro l
+    induction l with
+    | nil => intro _; rfl
+    | cons r rest ih =>
+      intro hl
+      simp only [List.map_cons, Spec.run]
+      rw [keepsHeld_spec p hp _ _ _ (hl r (List.mem_cons_self ..))]
+      exact ih (fun x hx => hl x (List.mem_cons_of_mem _ hx))
+  simp only [Spec.run]
+  rw [hpress]
+  exact hrest more hm
+
+namespace Scenario
+
+/-- Two windows side by side, both claiming every mouse event (the reviewers' demonstration, scaled down). -/
+def twoPanes : Option St :=
+  build [opWin 0 ⟨0, 0, 3, 8⟩, opWin 0 ⟨3, 0, 3, 8⟩, opBind 1 .mouse [claim], opBind 2 .mouse [claim]] (newSt 6 8)
+
+/-- The X10 reports of a history, pushed one after the other: the handler calls (window, event type, button), oldest first. -/
+def x10Calls (reports : List (Nat × Nat × Nat)) : Option (List (WinTree.Id × Int × Int)) :=
+  twoPanes.bind fun s =>
+    let r := reports.foldl (fun (acc : Option TSt) rp => acc.bind fun ts =>
+      match pushX10 Cfg.repaired {} ts rp.1 rp.2.1 rp.2.2 with
+      | .ok ts' => some ts'
+      | _ => none) (some { st := s })
+    r.map fun ts => (callsOf ts.st.log).filterMap fun i => match i with | .call _ w _ _ _ e => some (w, e.type, e.button) | _ => none
+
+end Scenario
+
+open Scenario in
+/-- Non-vacuity (the reviewers' demonstration): the wheel is turned over window 1, then button 3 is pressed in window
+    1, dragged inside it and on into window 2, and released there with the button-less X10 release: WHEEL up to 1;
+    PRESS 3, DRAG_START 3 and DRAG 3 to 1; DRAG 3 to 2 and DRAG_OUTSIDE 3 to 1; DRAG_DROP 3 to 2, DRAG_STOP 3 to 1,
+    RELEASE 3 to 2 — every synthesised event carries the button of the press, nothing is reported twice. -/
+example : x10Calls [(64, 1, 2), (2, 1, 2), (34, 2, 2), (34, 4, 2), (3, 4, 2)] =
+    some [(1, 4, 1), (1, 1, 3), (1, 257, 3), (1, 2, 3), (2, 2, 3), (1, 258, 3), (2, 259, 3), (1, 260, 3), (2, 3, 3)] := by
+  decide +kernel
 
 end Tickit.Props.C14
